@@ -35,7 +35,7 @@ import sock_common  # noqa: E402
 
 LOG = sock_common.LOG
 log = sock_common.log
-HANG = float(os.environ.get('VERIF_C18_HANG', '25'))
+HANG = float(os.environ.get('VERIF_C18_HANG', '20'))
 
 
 def _fileno_w(writer):
